@@ -5,6 +5,7 @@ from __future__ import annotations
 from .. import terms as tm
 from ..model import AnalysisError
 from .common import strip_numeric, count_form, ob, need, call_name, resolve_ite_free, role_of, is_lit, lit
+from . import common
 from .. import symeval
 
 PROP = "C07"
@@ -583,6 +584,7 @@ def rule_nooffsetroute(ctx):
 
 
 RULES = [
+    ("C07.FRAMECOUNT", 4, common.shared("c05", "rule_framecount", "C07.FRAMECOUNT")),
     ("C07.CONTNORM", 2, rule_contnorm),
     ("C07.NOOFFSETROUTE", 12, rule_nooffsetroute),
     ("C07.EDGEPRED", 4, rule_edgepred),
